@@ -253,6 +253,35 @@ func runQueryWire(c *Ctx, pr *PropertyRun, prop, pkg string) {
 		}
 	}
 	dec.RequireRole("wire-field", "public-field")
+	// ---- schema
+	sch := NewRule(prop, prop+".schema", "element and attribute names, namespaces and cardinalities of the "+short+" wire structs agree with the RFC DTD tables (E6); child order is not a violation (RFC 4918 §17)")
+	pr.Rules = append(pr.Rules, sch)
+	checkSchema(p, sch, func(xs *xmlStruct) bool {
+		pp := xs.Named.Obj().Pkg().Path()
+		if pp == pkg {
+			return true
+		}
+		if prop == "C09" && pp == pkgInternal {
+			n := xs.Named.Obj().Name()
+			return n == "SyncCollectionQuery" || n == "Limit"
+		}
+		return false
+	}, func(xs *xmlStruct) bool {
+		// repeated elements must be representable in the request documents
+		// (the property is about requests); properties are C10's business.
+		for _, w := range wireClosure {
+			if w == xs.Named {
+				return true
+			}
+		}
+		return strings.HasPrefix(xs.Named.Obj().Name(), "zzVerifControl")
+	})
+	sch.RequireRole("wire-struct", "attribute", "child-element")
+	if p.Control {
+		sch.ExpectControl("bogus-attr")
+		sch.ExpectControl("is-not-define")
+	}
+
 	if p.Control {
 		enc.ExpectControl("encode|" + short + ".ZzVerifControlQuery.Dropped")
 		dec.ExpectControl("decode-src|" + short + ".zzVerifControlWire.Lost")
